@@ -176,6 +176,7 @@ func verifyAll(L *Loaded, sel func(c *Contract) bool, workDir string, timeout ti
 		o    *Obligation
 		file string
 		qf   string
+		lia  string
 	}
 	var jobs []job
 	for _, c := range L.CS.Order {
@@ -210,8 +211,18 @@ func verifyAll(L *Loaded, sel func(c *Contract) bool, workDir string, timeout ti
 				script := e.tb.Script(q, gv, false)
 				f := writeScript(workDir, o.Name, script)
 				j := job{fr: part, o: o, file: f}
-				if qf := e.QueryQF(part, o); qf != nil {
+				qf := e.QueryQF(part, o)
+				if qf != nil {
 					j.qf = writeScript(workDir, o.Name+".qf", e.tb.Script(qf, nil, false))
+				}
+				if !o.Cover {
+					src := qf
+					if src == nil {
+						src = q
+					}
+					if ls, ok := e.tb.LIAScript(src); ok {
+						j.lia = writeScript(workDir, o.Name+".lia", ls)
+					}
 				}
 				jobs = append(jobs, j)
 			}
@@ -226,7 +237,7 @@ func verifyAll(L *Loaded, sel func(c *Contract) bool, workDir string, timeout ti
 			defer wg.Done()
 			sem <- struct{}{}
 			defer func() { <-sem }()
-			r := Solve(j.file, j.qf, timeout, all, j.o.Cover)
+			r := Solve(j.file, j.qf, j.lia, timeout, all, j.o.Cover)
 			or := &OblResult{O: j.o, C: j.fr.Contract, R: r, File: j.file}
 			switch {
 			case j.o.Cover && r.Status == "sat":
@@ -330,7 +341,7 @@ func debugModel(L *Loaded, frs []*FuncResult, or *OblResult, work string) {
 		return
 	}
 	q := e.QueryQF(fr, or.O)
-	if q == nil {
+	if q == nil || or.R.Status == "sat" {
 		q = e.Query(fr, or.O)
 	}
 	goal := e.skolemize(or.O.Goal)
@@ -417,7 +428,7 @@ func debugModel(L *Loaded, frs []*FuncResult, or *OblResult, work string) {
 	atoms = append(atoms, fr.Params...)
 	script := e.tb.Script(q, atoms, false)
 	f := writeScript(work, or.O.Name+".dbg", script)
-	r := Solve(f, "", 30*time.Second, false)
+	r := Solve(f, "", "", 30*time.Second, false)
 	fmt.Printf("     --- debug model (%s) for %s\n", r.Status, or.O.Name)
 	out := r.Output
 	i := strings.Index(out, "((")
